@@ -277,18 +277,56 @@ type forgeCase struct {
 	SameSecret bool   `json:"samesecret"`
 	Via        string `json:"via"`
 	Certs      bool   `json:"certs"`
+	SLen       int    `json:"slen"`   // length of the supplied secret (0 in old scenarios = 48)
+	SecVia     string `json:"secvia"` // "make": secret given to MakeClientSessionState, "set": to SetMasterSecret
+}
+
+// withSecret returns the encoding of st with its secret field replaced by secret.  The ticket handed to the server
+// must hold exactly the bytes the scenario names, so they are spliced into SessionState.Bytes() (version u16, type u8,
+// suite u16, created_at u64, then opaque secret<1..255>) instead of going through the constructor under test.
+func withSecret(st *tls.SessionState, secret []byte) (*tls.SessionState, error) {
+	b, err := st.Bytes()
+	if err != nil {
+		return nil, err
+	}
+	const off = 2 + 1 + 2 + 8
+	if len(b) <= off || len(b) < off+1+int(b[off]) || len(secret) > 255 {
+		return nil, fmt.Errorf("unexpected SessionState encoding")
+	}
+	nb := append([]byte(nil), b[:off]...)
+	nb = append(nb, byte(len(secret)))
+	nb = append(nb, secret...)
+	nb = append(nb, b[off+1+int(b[off]):]...)
+	return tls.ParseSessionState(nb)
+}
+
+// forgedState builds the client's forged session, the secret going through the constructor or through the setter.
+func forgedState(secvia string, ticket []byte, vers, suite uint16, secret []byte, certs []*x509.Certificate, chains [][]*x509.Certificate) *tls.ClientSessionState {
+	if secvia == "set" {
+		css := tls.MakeClientSessionState(ticket, vers, suite, nil, certs, chains)
+		css.SetMasterSecret(secret)
+		return css
+	}
+	return tls.MakeClientSessionState(ticket, vers, suite, secret, certs, chains)
 }
 
 func runForge(c forgeCase) map[string]any {
 	setupPKI()
 	r := mrand.New(mrand.NewSource(hlib.Seed()*15485863 + int64(c.ID)))
-	secret := make([]byte, 48)
+	if c.SLen == 0 {
+		c.SLen = 48
+	}
+	if c.SecVia == "" {
+		c.SecVia = "make"
+	}
+	secret := make([]byte, c.SLen)
 	r.Read(secret)
 	tsecret := secret
 	if !c.SameSecret {
-		tsecret = make([]byte, 48)
+		tsecret = make([]byte, c.SLen)
 		r.Read(tsecret)
 	}
+	is13 := c.Vers == tls.VersionTLS13
 	now := time.Now()
 	serverKey, otherKey := keyBytes(1), keyBytes(2)
 
@@ -297,6 +335,11 @@ func runForge(c forgeCase) map[string]any {
 	var smaster []byte
 	scfg := &tls.Config{Certificates: []tls.Certificate{leafRSA, leafECDSA}, MinVersion: tls.VersionTLS10, MaxVersion: uint16(c.Vers),
 		CipherSuites: []uint16{uint16(c.Suite)}}
+	if is13 {
+		// the in-tree server would pick its own preferred TLS 1.3 suite: make it pick the one of the session
+		scfg.CipherSuites = nil
+		tls.VerifSetOverride(scfg, &tls.VerifOverride{ForceSuite13: uint16(c.Suite)})
+	}
 	scfg.SetSessionTicketKeys([][32]byte{serverKey})
 	scfg.WrapSession = func(cs tls.ConnectionState, ss *tls.SessionState) ([]byte, error) {
 		if b, err := ss.Bytes(); err == nil {
@@ -312,10 +355,14 @@ func runForge(c forgeCase) map[string]any {
 	}
 
 	// the ticket: a server-side state with the supplied parameters, sealed with a key the server has (or not)
-	tcs := tls.MakeClientSessionState(nil, uint16(c.Vers), uint16(c.Suite), tsecret, nil, nil)
+	tcs := tls.MakeClientSessionState(nil, uint16(c.Vers), uint16(c.Suite), []byte{0}, nil, nil)
 	tcs.SetEMS(c.TEMS)
 	tcs.SetCreatedAt(uint64(now.Unix()))
-	_, tstate, _ := tcs.ResumptionState()
+	_, tstate0, _ := tcs.ResumptionState()
+	tstate, serr := withSecret(tstate0, tsecret)
+	if serr != nil {
+		return map[string]any{"ev": "BadScenario", "err": serr.Error()}
+	}
 	sealer := &tls.Config{}
 	if c.Sealed {
 		sealer.SetSessionTicketKeys([][32]byte{serverKey})
@@ -331,18 +378,25 @@ func runForge(c forgeCase) map[string]any {
 		certs = []*x509.Certificate{leafRSAX}
 		chains = [][]*x509.Certificate{{leafRSAX, pki.CA}}
 	}
-	forged := tls.MakeClientSessionState(ticket, uint16(c.Vers), uint16(c.Suite), secret, certs, chains)
+	forged := forgedState(c.SecVia, ticket, uint16(c.Vers), uint16(c.Suite), secret, certs, chains)
 	forged.SetEMS(c.EMS)
 	forged.SetCreatedAt(uint64(now.Unix()))
+	if is13 {
+		forged.SetUseBy(uint64(now.Add(time.Hour).Unix()))
+		forged.SetAgeAdd(uint32(r.Int63()))
+	}
 
 	cache := tls.NewLRUClientSessionCache(4)
 	ccfg := &tls.Config{ServerName: "example.com", RootCAs: pki.Pool, MinVersion: tls.VersionTLS10, MaxVersion: tls.VersionTLS12,
 		ClientSessionCache: cache, InsecureSkipVerify: !c.Certs}
+	if is13 {
+		ccfg.MaxVersion = tls.VersionTLS13
+	}
 	id, err := hlib.LookupID(c.Hello)
 	if err != nil {
 		return map[string]any{"ev": "BadScenario", "err": err.Error()}
 	}
-	if c.Hello == "Golang-0" {
+	if c.Hello == "Golang-0" && !is13 {
 		ccfg.CipherSuites = []uint16{uint16(c.Suite)}
 	}
 	opts := hlib.HSOpts{Echo: []int{16}, Timeout: 10 * time.Second}
@@ -372,7 +426,7 @@ func runForge(c forgeCase) map[string]any {
 	smu.Unlock()
 	p := map[string]any{"vers": c.Vers, "suite": c.Suite, "secret": hlib.Ints(secret), "ems": c.EMS,
 		"tvers": c.Vers, "tsuite": c.Suite, "tsecret": hlib.Ints(tsecret), "tems": c.TEMS,
-		"sealed": c.Sealed, "offersEMS": offersEMS, "hello": c.Hello, "via": c.Via, "certs": c.Certs}
+		"sealed": c.Sealed, "offersEMS": offersEMS, "hello": c.Hello, "via": c.Via, "certs": c.Certs, "secvia": c.SecVia}
 	o := map[string]any{"cerr": hlib.ErrStr(res.CErr) + terrStr(terr) + seterr, "serr": hlib.ErrStr(res.SErr),
 		"cresumed": res.CS.DidResume, "sresumed": res.SS.DidResume,
 		"cvers": int(res.CS.Version), "svers": int(res.SS.Version), "csuite": int(res.CS.CipherSuite), "ssuite": int(res.SS.CipherSuite),
@@ -401,6 +455,29 @@ func init() {
 		}
 		for _, sc := range req.Scenarios {
 			runTicketScenario(sc.ID, sc.Ops, out)
+		}
+		return nil
+	})
+	// secrets: {"cases":[{id,len,secvia}]} - what MasterSecret() returns for a secret of the given length
+	hlib.Register("secrets", func(in []byte, out *hlib.Out) error {
+		var req struct {
+			Cases []struct {
+				ID     int    `json:"id"`
+				Len    int    `json:"len"`
+				SecVia string `json:"secvia"`
+			} `json:"cases"`
+		}
+		if err := json.Unmarshal(in, &req); err != nil {
+			return err
+		}
+		for _, c := range req.Cases {
+			r := mrand.New(mrand.NewSource(hlib.Seed()*32452843 + int64(c.ID)))
+			secret := make([]byte, c.Len)
+			r.Read(secret)
+			supplied := hlib.Ints(secret) // logged before the library sees the slice
+			css := forgedState(c.SecVia, []byte{1}, tls.VersionTLS13, tls.TLS_AES_128_GCM_SHA256, secret, nil, nil)
+			out.Emit(map[string]any{"ev": "Reset", "id": c.ID})
+			out.Emit(map[string]any{"ev": "Secret", "secvia": c.SecVia, "supplied": supplied, "got": hlib.Ints(css.MasterSecret())})
 		}
 		return nil
 	})
